@@ -338,6 +338,9 @@ class Inliner:
         self.methods: T.Dict[T.Tuple[str, str], ast.FunctionDef] = {}   # (class, name) -> new methods
         self.expanded = 0
         self.dropped: T.List[str] = []
+        self.external: T.Dict[T.Tuple[str, str], ast.FunctionDef] = {}     # (alias, name) -> adapted copy of another module's new helper
+        self.external_names: T.Dict[str, ast.FunctionDef] = {}              # `from .m import h`
+        self.foreign_refs: T.Callable[[str], int] = lambda name: 0          # references to a name in the other modules
 
     # ------------------------------------------------------------------ discovery
     def discover(self) -> None:
@@ -382,7 +385,7 @@ class Inliner:
     # ------------------------------------------------------------------ driver
     def run(self) -> ast.Module:
         self.discover()
-        if not self.funcs and not self.methods:
+        if not self.funcs and not self.methods and not self.external and not self.external_names:
             return self.tree
         # helpers first (so that helper-in-helper is expanded before the outer one is copied), three rounds
         for _round in range(3):
@@ -419,7 +422,7 @@ class Inliner:
         while changed:
             changed = False
             for name, fd in list(self.funcs.items()):
-                if refs(name, False, fd) == 0 and self._remove_def(fd):
+                if refs(name, False, fd) == 0 and self.foreign_refs(name) == 0 and self._remove_def(fd):
                     del self.funcs[name]
                     self.dropped.append(name)
                     changed = True
@@ -469,6 +472,11 @@ class Inliner:
 
     # ------------------------------------------------------------------ call lookup
     def _callee(self, call: ast.Call) -> T.Optional[T.Tuple[ast.FunctionDef, bool]]:
+        if isinstance(call.func, ast.Attribute) and isinstance(call.func.value, ast.Name) and (call.func.value.id, call.func.attr) in self.external \
+                and call.func.value.id not in self._shadow:
+            return self.external[(call.func.value.id, call.func.attr)], False
+        if isinstance(call.func, ast.Name) and call.func.id in self.external_names and call.func.id not in self._shadow:
+            return self.external_names[call.func.id], False
         if isinstance(call.func, ast.Name) and call.func.id in self.funcs and call.func.id not in self._shadow:
             fd = self.funcs[call.func.id]
             return (fd, False) if fd is not self._cur else None
@@ -752,6 +760,138 @@ class Inliner:
             w._inline_of = fd.name              # type: ignore[attr-defined]
             return pre + [w]
         return pre + new_body
+
+
+def _module_aliases(tree: ast.Module, pkg: str = "bumpver") -> T.Tuple[T.Dict[str, str], T.Dict[str, T.Tuple[str, str]]]:
+    """(alias -> sibling module name, local name -> (sibling module, name)) from the module-level imports."""
+    mods: T.Dict[str, str] = {}
+    names: T.Dict[str, T.Tuple[str, str]] = {}
+    for st in tree.body:
+        if isinstance(st, ast.ImportFrom):
+            base = st.module or ""
+            internal = st.level > 0 or base == pkg or base.startswith(pkg + ".")
+            if not internal:
+                continue
+            if base.startswith(pkg):
+                base = base[len(pkg):].lstrip(".")
+            for al in st.names:
+                if base == "":
+                    mods[al.asname or al.name] = al.name
+                else:
+                    names[al.asname or al.name] = (base, al.name)
+        elif isinstance(st, ast.Import):
+            for al in st.names:
+                if al.name.startswith(pkg + ".") and al.asname:
+                    mods[al.asname] = al.name[len(pkg) + 1:]
+    return mods, names
+
+
+def _module_level_names(tree: ast.Module) -> T.Dict[str, str]:
+    """name -> 'def' | 'import:<text>' for the module-level bindings."""
+    out: T.Dict[str, str] = {}
+    for st in tree.body:
+        if isinstance(st, (ast.FunctionDef, ast.ClassDef)):
+            out[st.name] = "def"
+        elif isinstance(st, (ast.Assign, ast.AnnAssign)):
+            for n in _stored_names(st):
+                out[n] = "def"
+        elif isinstance(st, ast.Import):
+            for al in st.names:
+                out[al.asname or al.name.split(".")[0]] = "import:" + ast.unparse(ast.Import(names=[al]))
+        elif isinstance(st, ast.ImportFrom):
+            for al in st.names:
+                out[al.asname or al.name] = "import:" + ast.unparse(ast.ImportFrom(module=st.module, names=[al], level=st.level))
+        elif isinstance(st, (ast.If, ast.Try)):
+            for sub in ast.walk(st):
+                if isinstance(sub, (ast.FunctionDef, ast.ClassDef)):
+                    out.setdefault(sub.name, "def")
+    return out
+
+
+def _adapt_for(fd: ast.FunctionDef, home: ast.Module, target: ast.Module, alias: T.Optional[str]) -> T.Optional[ast.FunctionDef]:
+    """Copy of a helper of module `home` whose free names mean the same thing when evaluated inside module `target`
+    (home-module definitions are qualified with `alias`), or None."""
+    import builtins
+    home_names, target_names = _module_level_names(home), _module_level_names(target)
+    local = _stored_names(fd)
+    new = copy.deepcopy(fd)
+    ok = True
+
+    class Q(ast.NodeTransformer):
+        def visit_Name(self, node: ast.Name) -> ast.AST:
+            nonlocal ok
+            if node.id in local or hasattr(builtins, node.id) or not isinstance(node.ctx, ast.Load):
+                return node
+            kind = home_names.get(node.id)
+            if kind == "def":
+                if alias is None:
+                    ok = False
+                    return node
+                return ast.copy_location(ast.Attribute(value=ast.Name(id=alias, ctx=ast.Load()), attr=node.id, ctx=ast.Load()), node)
+            if kind is not None and kind.startswith("import:"):
+                if target_names.get(node.id) != kind:
+                    ok = False
+                return node
+            ok = False
+            return node
+    new.body = [Q().visit(b) for b in new.body]
+    return new if ok else None
+
+
+def normalise_program(trees: T.Dict[str, ast.Module]) -> T.Dict[str, int]:
+    """Expand the new helpers of every module (also across sibling modules); returns expanded call sites per module."""
+    out = {m: 0 for m in trees}
+    if os.environ.get("VERIF_NO_NORMALISE"):
+        return out
+    inliners: T.Dict[str, Inliner] = {}
+    for m, tree in trees.items():
+        known = dict(baseline().get(m, {}))
+        if known:            # a module the pinned tree does not have: nothing is known about its decomposition
+            inliners[m] = Inliner(tree, m, known)
+            inliners[m].discover()
+    # helpers of one module that are called from a sibling
+    for m, inl in inliners.items():
+        for name, fd in inl.funcs.items():
+            for n, other in inliners.items():
+                if n == m:
+                    continue
+                mods, names = _module_aliases(other.tree)
+                for alias, target in mods.items():
+                    if target == m and any(isinstance(c, ast.Attribute) and c.attr == name and isinstance(c.value, ast.Name) and c.value.id == alias for c in ast.walk(other.tree)):
+                        ad = _adapt_for(fd, inl.tree, other.tree, alias)
+                        if ad is not None:
+                            other.external[(alias, name)] = ad
+                for local, (target, orig) in names.items():
+                    if target == m and orig == name:
+                        ad = _adapt_for(fd, inl.tree, other.tree, next((a for a, t in mods.items() if t == m), None))
+                        if ad is not None:
+                            other.external_names[local] = ad
+
+    def foreign(m: str) -> T.Callable[[str], int]:
+        def count(name: str) -> int:
+            k = 0
+            for n, tree in trees.items():
+                if n == m:
+                    continue
+                for x in ast.walk(tree):
+                    if (isinstance(x, ast.Attribute) and x.attr == name) or (isinstance(x, ast.Name) and x.id == name) or \
+                            (isinstance(x, ast.alias) and x.name == name) or (isinstance(x, ast.Constant) and x.value == name):
+                        k += 1
+            return k
+        return count
+    # expand everywhere first, drop afterwards (a helper of m may only be referenced from its siblings)
+    for m, inl in inliners.items():
+        inl.foreign_refs = lambda name: 1            # nothing is dropped in the first pass
+        try:
+            trees[m] = inl.run()
+        except RecursionError:
+            continue
+        out[m] = inl.expanded
+    for m, inl in inliners.items():
+        inl.foreign_refs = foreign(m)
+        inl._drop_unreferenced()
+        ast.fix_missing_locations(inl.tree)
+    return out
 
 
 def normalise_module(tree: ast.Module, modname: str) -> T.Tuple[ast.Module, int]:
